@@ -252,6 +252,9 @@ func genWire(r *Rand, g GenCfg) Plan {
 		for v := 0; v < 14; v++ {
 			add(XStep{Op: "sig", Tok: v % 2, Kind: "sig_shape", Val: v})
 		}
+		for v := 0; v < 4; v++ {
+			add(XStep{Op: "sig", Tok: v % 2, Kind: "nonce_is_signed_part", Val: v})
+		}
 		if g.Index%4 == 2 {
 			add(XStep{Op: "sig", Tok: r.Intn(2), Kind: "churn", Val: Pick(r, []int{0, 1, 2, 2})})
 		}
@@ -295,7 +298,8 @@ func genWire(r *Rand, g GenCfg) Plan {
 		}
 		for i := 0; i < nn; i++ {
 			add(XStep{Op: "hostile", Tok: r.Intn(2), Kind: "deep_value", Depth: Pick(r, depths), Val: r.Intn(6)})
-			add(XStep{Op: "hostile", Tok: r.Intn(2), Kind: "deep_policy", Depth: Pick(r, depths), Val: r.Intn(3)})
+			add(XStep{Op: "hostile", Tok: r.Intn(2), Kind: "deep_policy", Depth: Pick(r, depths), Val: r.Intn(21)})
+			add(XStep{Op: "hostile", Tok: r.Intn(2), Kind: "deep_policy", Depth: Pick(r, []int{9, 10, 11, 19, 20, 21, 32, 33, 64}), Val: r.Intn(21)})
 		}
 		for i := 0; i < 3*nn; i++ {
 			t := r.Intn(2)
@@ -368,15 +372,18 @@ func genWire(r *Rand, g GenCfg) Plan {
 				}
 			}
 			for _, f := range []string{"nbf", "exp", "iat", "args", "pol", "meta"} {
-				for v := 0; v < 48; v++ {
+				for v := 0; v < 72; v++ {
 					if all && v > 1 {
+						break
+					}
+					if v >= 48 && f != "args" && f != "pol" {
 						break
 					}
 					add(XStep{Op: "byz", Tok: t, Field: f, How: "range", Val: v})
 				}
 				if f == "pol" && !all {
 					// integers inside selectors (9 numbers x 6 places)
-					for v := 48; v < 48+54; v++ {
+					for v := 72; v < 72+54; v++ {
 						add(XStep{Op: "byz", Tok: t, Field: f, How: "range", Val: v})
 					}
 				}
